@@ -81,10 +81,11 @@ CLAIMED["C06"] = dict(
          "graph. All TLC behaviours up to depth 3 and sweeps over real requests - every listed corruption, each bit (quick: one "
          "seeded bit per byte) of every field, foreign-key/foreign-content/short/long/zero/swapped signatures, wrong blind, wrong "
          "client, malformed client keys, alone and with accepted state present - are executed with a recording cache and "
-         "validated by TLC (verdict, Put count, registered set, state snapshots). TLAPS (AttesterProofs, thorough tier) proves RegisteredOnlyVerified as part of an inductive invariant for arbitrary constants.",
+         "validated by TLC (verdict, Put count, registered set, state snapshots). TLAPS (AttesterProofs, thorough tier) proves RegisteredOnlyVerified as part of an inductive invariant for arbitrary constants."
+         + " Verdicts.tla (a long-lived verifier with a memo in front of its check; VerdictIsFunction holds for the intended design - TLAPS: for histories of any length - and fails for three named deviations) generates EVERY history of 3 (thorough 4) presentations over the kind's classes (attester); each is replayed on one attester, each class one concrete value per history, and TLC validates every recorded verdict against the specification's decision.",
     note="The request class (what is true of the request) is known to the harness by construction; 'rejected' for corrupted "
          "requests can fail spuriously only with probability <= 2^-100.",
-    technique="TLA+ spec + TLC model checking + TLC-generated behaviours and corruption sweeps replayed on the real attester + TLC trace validation",
+    technique="TLA+ spec + TLC model checking + TLC-generated behaviours and corruption sweeps replayed on the real attester + TLC trace validation + TLC-generated histories of presentations (Verdicts.tla) replayed on a long-lived object",
     ref="5/C06")
 CLAIMED["C08"] = dict(
     text="Algebra.tla gives key terms a normal form (base key + exponent per blinding factor); over it TLC checks IndexStable (the "
@@ -115,26 +116,29 @@ CLAIMED["C02"] = dict(
          "with one mutation of the real response bytes (each bit of every response field, foreign key, foreign request, drop / "
          "duplicate / swap / every permutation of batch elements, an element of another batch, truncations, extensions, random "
          "strings) are validated by TLC, which rebuilds the symbolic run, applies the logged mutation and requires the library's "
-         "verdict to equal FinalizeCheck; any token output must pass the independent oracle and carry the request's fields. TLAPS (IssuanceProofs) proves for arbitrary constants, batch sizes and ANY message on the network: accepted => the response content is the honest answer to this request under the pinned key, and outputs are the request's own tokens.",
+         "verdict to equal FinalizeCheck; any token output must pass the independent oracle and carry the request's fields. TLAPS (IssuanceProofs) proves for arbitrary constants, batch sizes and ANY message on the network: accepted => the response content is the honest answer to this request under the pinned key, and outputs are the request's own tokens."
+         + " Verdicts.tla (a long-lived verifier with a memo in front of its check; VerdictIsFunction holds for the intended design - TLAPS: for histories of any length - and fails for three named deviations) generates EVERY history of 3 (thorough 4) presentations over the kind's classes (t1final/t2final/t5final/t3final); each is replayed on one request state per type, each class one concrete value per history, and TLC validates every recorded verdict against the specification's decision.",
     note="Coverage of 'all responses' is the closure of the mutation alphabet plus random strings. A corrupted response is accepted "
          "by a correct client with probability <= 2^-100.",
-    technique="TLA+ protocol spec with attacker + TLC model checking + TLC trace validation of recorded mutated runs against the spec's finalize checks",
+    technique="TLA+ protocol spec with attacker + TLC model checking + TLC trace validation of recorded mutated runs against the spec's finalize checks + TLC-generated histories of presentations (Verdicts.tla) replayed on a long-lived object",
     ref="5/C02")
 CLAIMED["C07"] = dict(
     text="Issuance.tla states the rate-limited issuer's Evaluate as its chain of checks (RLAccepts) and what a bit flip in each "
          "field breaks (RLFlip); TLC checks EveryFlipRejected. Recorded Evaluate calls on an honest request, on every single-bit "
          "change of it, on look-alike unregistered origins, foreign issuer, foreign signer, foreign contents, missing signature, "
          "trailing data, foreign request key, non-parsing inner plaintext and an AAD without the request key (sealed and signed by "
-         "the harness itself with go-hpke and the ECDSA fork) are validated by TLC: a response exists iff every link holds.",
+         "the harness itself with go-hpke and the ECDSA fork) are validated by TLC: a response exists iff every link holds."
+         + " Verdicts.tla (a long-lived verifier with a memo in front of its check; VerdictIsFunction holds for the intended design - TLAPS: for histories of any length - and fails for three named deviations) generates EVERY history of 3 (thorough 4) presentations over the kind's classes (rlissuer); each is replayed on one rate-limited issuer, each class one concrete value per history, and TLC validates every recorded verdict against the specification's decision.",
     note="The request class is known to the harness by construction. Rejection of corrupted requests can fail spuriously only with negligible probability.",
-    technique="TLA+ check-chain spec + TLC invariant + TLC trace validation of recorded Evaluate calls over every bit of a request and crafted requests",
+    technique="TLA+ check-chain spec + TLC invariant + TLC trace validation of recorded Evaluate calls over every bit of a request and crafted requests + TLC-generated histories of presentations (Verdicts.tla) replayed on a long-lived object",
     ref="5/C07")
 CLAIMED["C10"] = dict(
     text=_ISS + "TLC checks VerifyExact. Recorded Verify calls of type-1 and type-5 issuers on honest tokens and altered ones (each "
          "bit of each field, type field, other key, other type, field-length shifts, short/long/empty fields, authenticator "
-         "prefixes) are validated by TLC: verdict = independent FullEvaluate comparison, honest accepted, listed alterations rejected. TLAPS (IssuanceProofs, thorough tier) proves VerifyExact from the inductive invariant for arbitrary constants.",
+         "prefixes) are validated by TLC: verdict = independent FullEvaluate comparison, honest accepted, listed alterations rejected. TLAPS (IssuanceProofs, thorough tier) proves VerifyExact from the inductive invariant for arbitrary constants."
+         + " Verdicts.tla (a long-lived verifier with a memo in front of its check; VerdictIsFunction holds for the intended design - TLAPS: for histories of any length - and fails for three named deviations) generates EVERY history of 3 (thorough 4) presentations over the kind's classes (t1verify/t5verify); each is replayed on one issuer per type, each class one concrete value per history, and TLC validates every recorded verdict against the specification's decision.",
     note="The reference verdict uses circl's FullEvaluate over bytes concatenated by the harness.",
-    technique="TLA+ protocol spec + TLC invariant + TLC trace validation of recorded Verify calls on altered tokens",
+    technique="TLA+ protocol spec + TLC invariant + TLC trace validation of recorded Verify calls on altered tokens + TLC-generated histories of presentations (Verdicts.tla) replayed on a long-lived object",
     ref="5/C10")
 CLAIMED["C11"] = dict(
     text=_ISS + "TLC checks TokenIgnoresBlind. A matrix of deterministic runs (types 1, 2, 5; keys; nonce/challenge pairs; salts; a "
@@ -176,9 +180,10 @@ CLAIMED["C13"] = dict(
          "closure with hand-made deviations and random strings, cross signing in both directions (raw, ASN.1, crypto.Signer, "
          "key-blinded, generated keys), and every reader script for GenerateKey / Sign / SignASN1 / Signer.Sign / BlindKeySign - "
          "are validated: fork = crypto/ecdsa everywhere, structurally bad inputs rejected by both, valid ones accepted, an "
-         "entropy failure gives an error and no key or signature.",
+         "entropy failure gives an error and no key or signature."
+         + " Verdicts.tla (a long-lived verifier with a memo in front of its check; VerdictIsFunction holds for the intended design - TLAPS: for histories of any length - and fails for three named deviations) generates EVERY history of 3 (thorough 4) presentations over the kind's classes (ecdsa); each is replayed on the package's Verify, each class one concrete value per history, and TLC validates every recorded verdict against the specification's decision.",
     note="Arithmetic equivalence with crypto/ecdsa 'for every value' is sampled, not decided. MaybeReadByte's coin is unobservable, so with exactly 32 bytes available both outcomes are allowed.",
-    technique="TLA+ decision-structure and fault-sequence spec + TLC model checking + TLC trace validation of recorded fork-vs-stdlib calls and scripted entropy failures",
+    technique="TLA+ decision-structure and fault-sequence spec + TLC model checking + TLC trace validation of recorded fork-vs-stdlib calls and scripted entropy failures + TLC-generated histories of presentations (Verdicts.tla) replayed on a long-lived object",
     ref="5/C13")
 CLAIMED["C14"] = dict(
     text="SigForks.tla states the structural part of Ed25519 verification (length, top bits, S < L computed by TLC from the logged "
@@ -187,10 +192,11 @@ CLAIMED["C14"] = dict(
          "x R and A classes (honest, sign flipped, the eight small-order points, all non-canonical encodings of the repository's "
          "own table, x = 0 with sign bit, off-curve) plus bit flips and lengths; GenerateKey of both implementations on identical "
          "failing reader scripts (every failure position x chunking x error kind) - are validated: identical bytes, verdicts, "
-         "reader consumption and errors.",
+         "reader consumption and errors."
+         + " Verdicts.tla (a long-lived verifier with a memo in front of its check; VerdictIsFunction holds for the intended design - TLAPS: for histories of any length - and fails for three named deviations) generates EVERY history of 3 (thorough 4) presentations over the kind's classes (ed25519); each is replayed on the package's Verify, each class one concrete value per history, and TLC validates every recorded verdict against the specification's decision.",
     note="NOT decided: equivalence of the fork's 2.5k lines of field/scalar arithmetic 'for all inputs incl. rare carry "
          "patterns' - outside what a TLA+ specification can state; exercised only through the sampled inputs. Only the public API is driven.",
-    technique="TLA+ decision-structure spec + TLC trace validation of recorded fork-vs-crypto/ed25519 calls on adversarial encodings and scripted entropy failures",
+    technique="TLA+ decision-structure spec + TLC trace validation of recorded fork-vs-crypto/ed25519 calls on adversarial encodings and scripted entropy failures + TLC-generated histories of presentations (Verdicts.tla) replayed on a long-lived object",
     ref="5/C14")
 CLAIMED["C15"] = dict(
     text="KeyBlind.tla with Deterministic = TRUE: the blinding laws plus SignDeterministic, checked by TLC over all key terms up "
